@@ -133,7 +133,12 @@ def _cases():
         ('squeeze', lambda c: (npshim.squeeze(sym(c, m23[:, :, None])), np.squeeze(m23[:, :, None]))),
         ('flatnonzero', lambda c: (npshim.flatnonzero(sym(c, np.array([0.0, 2.0, 0.0, -1.0]))), np.flatnonzero(np.array([0.0, 2.0, 0.0, -1.0])))),
         ('full_like-nan', lambda c: (npshim.isnan(npshim.full_like(sym(c, i5), np.nan, dtype=float)), np.isnan(np.full_like(i5, np.nan, dtype=float)))),
+        ('nonzero', lambda c: (npshim.nonzero(sym(c, np.array([0, 3, 0, 0, 5])))[0], np.nonzero(np.array([0, 3, 0, 0, 5]))[0])),
+        ('swapaxes', lambda c: (npshim.swapaxes(sym(c, m23), 0, 1), np.swapaxes(m23, 0, 1))),
         ('full_like', lambda c: (npshim.full_like(sym(c, a5), 3), np.full_like(a5, 3))),
+        ('sum-keepdims', lambda c: (sym(c, m23).sum(axis=1, keepdims=True), m23.sum(axis=1, keepdims=True))),
+        ('sum-keepdims0', lambda c: (npshim.sum(sym(c, m23), axis=0, keepdims=True), np.sum(m23, axis=0, keepdims=True))),
+        ('logical_not', lambda c: (npshim.logical_not(sym(c, np.array([True, False, True]))), np.logical_not(np.array([True, False, True])))),
         ('squeeze-axis', lambda c: (npshim.squeeze(sym(c, m23[:, None, :, None]), axis=-1), np.squeeze(m23[:, None, :, None], axis=-1))),
         ('squeeze-axis1', lambda c: (npshim.squeeze(sym(c, m23[:, None, :]), axis=1), np.squeeze(m23[:, None, :], axis=1))),
         ('all-axis1', lambda c: (npshim.all_(sym(c, np.array([[True, True], [True, False]])), axis=1), np.all(np.array([[True, True], [True, False]]), axis=1))),
